@@ -1,4 +1,5 @@
 import CentrifugeVerif.Proofs.Recovery
+import CentrifugeVerif.Proofs.RecoveryHub
 /-!
 # C02 — stream recovery is exact or explicitly refused
 
@@ -129,6 +130,29 @@ theorem refused_reply (limit : Nat) (s : RStream) (hi : s.Inv) (req : Req) (hoff
   by_cases hc : streamCond limit s req
   · simp [hc, Outcome.recovered] at h
   · simp [hc, hr]
+
+/-- **stream_inv_reachable.**  The hypothesis `RStream.Inv` of the theorems above holds for the stream
+read by a subscribe in *every reachable state* of the hub mini-model: any sequence of publish (any
+history size / TTL), RemoveHistory, sweeper ticks (TTL expiry keeps top, meta expiry deletes the stream
+so that the next access creates a fresh epoch with top 0) and subscribes (with cache-empty handler
+publishes), provided fewer than 2^64 - 2 publications were made. -/
+theorem stream_inv_reachable (ops : List HubOp) (now m l : Nat)
+    (hb : (Hub.run { now := now, cfgMeta := m, cfgLimit := l } ops).nextId + 1 < U64) (mt : Nat) :
+    ((Hub.run { now := now, cfgMeta := m, cfgLimit := l } ops).access mt).2.Inv :=
+  reachable_read_inv ops now m l hb mt
+
+/-- **hub_recovered_true_iff.**  `recovered_true_iff` at hub level: a client subscribe with `Recover`
+in stream mode against any hub state satisfying the invariant (so: any reachable one). -/
+theorem hub_recovered_true_iff (h : Hub) (hi : h.HInv) (sp : SubParams) (hm : sp.cacheMode = false)
+    (hr : sp.recover = true) (hoff : sp.req.offset < U64) :
+    (h.subscribe sp).out.recovered = true ↔
+      epochOK (h.access 0).2 sp.req.epoch ∧ sp.req.offset ≤ (h.access 0).2.top ∧
+      gapRetained (h.access 0).2 sp.req.offset ∧ ¬ truncated h.cfgLimit (h.access 0).2 sp.req.offset := by
+  have : (h.subscribe sp).out = streamSubscribe h.cfgLimit (h.access 0).2 sp.req sp.filt.pass [] := by
+    unfold Hub.subscribe
+    simp [hm, hr]
+  rw [this]
+  exact recovered_true_iff _ _ (hinv_access hi 0).2.1 _ hoff _
 
 /-! ### Non-vacuity: concrete states satisfying `Inv`, exercising the branches -/
 
